@@ -37,7 +37,7 @@ ASSUMPTIONS = ["CancelledError is never injected",
                "after an abort the event's effect is legitimately lost, so later steps are "
                "checked for legality and responsiveness, not against the fault-free twin"]
 
-TOTAL = {"quick": 96, "thorough": 3000}
+TOTAL = {"quick": 96, "thorough": 800}
 NEV = {"quick": 8, "thorough": 12}
 LIBERR = xs.XStateMachineError
 
@@ -403,7 +403,7 @@ def enum_case(res: Result, spec, idx):
                     res.count("positions.callback.skipped-unsafe", n)
             elif kind != "action":
                 positions += [(kind, k) for k in range(n)]
-        cap_n = 60 if spec["tier"] == "quick" else 400
+        cap_n = 60 if spec["tier"] == "quick" else 150
         if len(positions) > cap_n:
             positions = frng.sample(positions, cap_n)
             res.count("positions.sampled-cases")
